@@ -22,6 +22,8 @@ func HarnessBuild() {
 	wNFinders = verif.Param("finders", 1)
 	wSymContent = verif.Param("symContent", 0) == 1
 	wSymMeta = verif.Param("symMeta", 0) == 1
+	wWarnOn = verif.Param("warn", 0) == 1
+	wTwoSets = verif.Param("twosets", 0) == 1
 	b, err := NewBuilder(wTarget, wFetcher{}, wRegistry{})
 	verif.Assume(err == nil)
 	ctx := wCtx{wTracer()}
@@ -54,6 +56,38 @@ func HarnessBuild() {
 	}
 	for k, n := range wAnalysed {
 		verif.Assert("C14-nothing-outside-the-closure-analysed", seen[k] && n == 1)
+	}
+	for r := 0; r < nReg; r++ {
+		used := false
+		for k := range regs {
+			if wHasPrefix(k, "r"+string(rune('0'+r))+"@") {
+				used = true
+			}
+		}
+		if used {
+			verif.Assert("C14-version-list-requested-once", wRegVersionsCalls[r] == 1)
+		} else {
+			verif.Assert("C14-version-list-not-requested-needlessly", wRegVersionsCalls[r] == 0)
+		}
+	}
+	for k := range regs {
+		verif.Assert("C14-selected-version-address-requested-once", wRegSourceCalls[k] == 1)
+	}
+	for k, n := range wRegSourceCalls {
+		verif.Assert("C14-no-other-version-address-requested", regs[k] && n == 1)
+	}
+	verif.Assert("C14-every-source-start-has-one-end", wCountEvents("source-start") == wCountEvents("source-success")+wCountEvents("source-failure"))
+	verif.Assert("C14-every-versions-start-has-one-end", wCountEvents("versions-start") == wCountEvents("versions-success")+wCountEvents("versions-failure"))
+	for i, e := range wEvents {
+		if wHasPrefix(e, "source-already ") {
+			ok := false
+			for _, f := range wEvents[:i] {
+				if f == "source-success "+e[len("source-already "):] {
+					ok = true
+				}
+			}
+			verif.Assert("C14-already-only-after-success", ok)
+		}
 	}
 	verif.Assert("C14-every-download-start-has-one-end", wCountEvents("download-start") == wCountEvents("download-success")+wCountEvents("download-failure"))
 	// "already" only after a success for the same package
@@ -93,7 +127,7 @@ func HarnessBuild() {
 		verif.Assert("C08-holds-the-fetched-content", found)
 		m := bundle.RemotePackageMeta(src.Package())
 		wm := wMeta[k.node.pkg]
-		if wm != nil {
+		if wm != nil && (wm.gitCommitID != "" || wm.gitCommitMessage != "") {
 			verif.Assert("C08-metadata-unchanged", m != nil && *m == *wm)
 		}
 	}
